@@ -136,8 +136,8 @@ def classify_off_surface(sh, s, fr, P0, D0, pl_rec, near_par, tol_s):
         # full quadric c(x^2+y^2+(1+k)z^2) - 2z = 0 satisfied, but not the vertex sheet -> far-sheet root
         x, y, z = pl_rec[:, 0], pl_rec[:, 1], pl_rec[:, 2]
         F = sh.c * (x * x + y * y + (1 + sh.k) * z * z) - 2 * z
-        t_ref = sh.intersect_conic(p0l, d0l)
-        if np.all(np.abs(F) <= 1e-7 * (1 + np.abs(z))) and np.all(np.isnan(t_ref)):
+        # (the vertex-sheet root is behind the ray, absent, or farther from the vertex plane than the other one)
+        if np.all(np.abs(F) <= 1e-7 * (1 + np.abs(z))):
             return 'on-surface:conic-far-sheet-root'
         return 'on-surface:unexplained'
     # iterated shapes: no open known mechanism (the unchecked-iteration defect was repaired, see known_findings.json)
@@ -283,7 +283,13 @@ def check_case(case, rec):
             # half-space
             c0, c1 = np.sum(d0l * Nl, axis=1), np.sum(d1l * Nl, axis=1)
             okh = bool(np.all((c0 * c1 < 0) | badm)) if is_mirror else bool(np.all((c0 * c1 > 0) | badm))
-            rec.check('half-space', okh, n=nv, msg=f'surface {k}: outgoing direction in the wrong half-space')
+            keyh = None
+            if not okh and keyl == 'snell:chebyshev-normal-norm-factor':
+                # same known mechanism: the direction was computed with the as-built normal N2
+                a0, a1 = np.sum(d0l * N2, axis=1), np.sum(d1l * N2, axis=1)
+                ok2 = bool(np.all((a0 * a1 < 0) | badm)) if is_mirror else bool(np.all((a0 * a1 > 0) | badm))
+                keyh = 'half-space:chebyshev-normal-norm-factor' if ok2 else 'half-space:unexplained'
+            rec.check('half-space', okh, key=keyh, n=nv, msg=f'surface {k}: outgoing direction in the wrong half-space')
             # optical path
             seg = np.linalg.norm(dP, axis=1)
             dopd = OPD[k][v] - OPD[k - 1][v]
